@@ -59,6 +59,33 @@ def clustered_list(rng, nmax, allow_empty=False, big=True):
     return out
 
 
+def big_list(rng, nmax=400):
+    """a LONG list (65 .. nmax intervals) in one of three shapes that small clustered lists never have: many
+    disjoint pieces (the result is long too), one deep nest (every interval inside the one before), a long
+    chain of pieces that touch or overlap at single end points; shuffled"""
+    n = rng.choice([65, 66, 70, 100, 129, 200, 257, 300, nmax])
+    shape = rng.randrange(3)
+    base = rng.choice([0, -1000, 10 ** 6, -(BIG // 2)])
+    out = []
+    if shape == 0:
+        x = base
+        for _ in range(n):
+            w = rng.randint(0, 4)
+            out.append((x, x + w, "c" if w == 0 else rng.choice("oc")))
+            x += w + rng.randint(1, 3)
+    elif shape == 1:
+        for i in range(n):
+            out.append((base + i, base + 3 * n - i, rng.choice("oc")))
+    else:
+        x = base
+        for _ in range(n):
+            w = rng.randint(1, 5)
+            out.append((x, x + w, rng.choice("oc")))
+            x += w - rng.choice([0, 0, 1])
+    rng.shuffle(out)
+    return out
+
+
 IVAL_ASSUME = [
     "sort.Sort is assumed to return a sorted permutation (the model sorts by insertion; the proof shows the sorted permutation is unique, so any correct sort gives the same list)",
     "positions are unbounded Int in the model; the property's domain |x| < 2^62 keeps int64 from wrapping and away from the MIN_INT64 sentinel (modelled as `none`)",
@@ -89,6 +116,8 @@ class _C05(Spec):
         n = 20000 if tier == "quick" else 300000
         rreqs = ["ival norm " + ivs(clustered_list(rng, 60, allow_empty=(i % 5 == 0))) for i in range(n)]
         sts.append(Stream("norm-random", rreqs))
+        # long lists (65 .. 400 intervals): beyond every fixed-size fast path one might write
+        sts.append(Stream("norm-long", ["ival norm " + ivs(big_list(rng)) for _ in range(300 if tier == "quick" else 3000)]))
         return sts
 
     def exhaustive(self, tier):
@@ -147,6 +176,27 @@ class _C04(Spec):
                 ops.append(l)
             rreqs.append("ival inter " + ";".join(ivs(o) for o in ops))
         sts.append(Stream("inter-random", rreqs))
+        # long operands (65 .. 400 intervals) against short windows whose ends sit ON end points of the long one
+        lreqs = []
+        for _ in range(300 if tier == "quick" else 3000):
+            a = big_list(rng)
+            ops = [a]
+            for _ in range(rng.choice([1, 1, 2, 3])):
+                if rng.random() < 0.3:
+                    ops.append(big_list(rng))
+                else:
+                    pts = sorted({t[0] for t in a} | {t[1] for t in a})
+                    w = []
+                    for _ in range(rng.randint(1, 4)):
+                        i = rng.randrange(len(pts)); j = min(len(pts) - 1, i + rng.randint(0, 30))
+                        lo, hi = pts[i] + rng.choice([0, 0, 0, -1, 1]), pts[j] + rng.choice([0, 0, 0, -1, 1])
+                        if lo > hi:
+                            lo, hi = hi, lo
+                        w.append((lo, hi, "c" if lo == hi else rng.choice("oc")))
+                    ops.append(w)
+            rng.shuffle(ops)
+            lreqs.append("ival inter " + ";".join(ivs(o) for o in ops))
+        sts.append(Stream("inter-long", lreqs))
         return sts
 
     def exhaustive(self, tier):
@@ -241,6 +291,8 @@ class _C13(Spec):
         hreqs = ["ival human " + ivs(l) for l in lists_upto(wf_intervals(0, 4), 2)]
         hreqs += ["ival human " + ivs(clustered_list(rng, 12)) for _ in range(10000)]
         hreqs += ["ival extract " + ivs([t for t in clustered_list(rng, 6, big=False)]) for _ in range(5000)]
+        hreqs += ["ival human " + ivs(big_list(rng, 300)) for _ in range(60)]
+        hreqs += ["ival showlist " + ivs(sorted(big_list(rng, 300))) for _ in range(40)]
         sts.append(Stream("humanize-extract", hreqs))
         return sts
 
